@@ -33,6 +33,10 @@ def check(ctx):
     ctx.rule("C18-D", "declarations of a ::before / ::after rule never land on the element itself: the element's own computed "
              "style is the merge target exactly when the rule has no pseudo-element")
     ctx.guard("C18-D", rule_d)
+    ctx.rule("C18-E", "every extracted <style> element is parsed on its own: dom_to_stylesheet hands add_author_css one element of "
+             "the extracted list per call (the parser keeps what it read before the first statement it cannot parse, so a "
+             "joined text would let one sheet's unreadable statement discard every later sheet)")
+    ctx.guard("C18-E", rule_e)
 
 
 BUILDERS = ("RenderNode::new", "RenderNode::new_styled", "pending", "pending_noempty", "table_to_render_tree",
@@ -312,6 +316,31 @@ def rule_c(ctx):
               "an element arm of the extraction walk returns Nothing: style elements below such an element are never read")
     ctx.check(bool([1 for x in region if b.term(x)["k"] == "call" and ends(callee_def(b.term(x)), "pending")]), "C18-C",
               "style-extraction:descends-into-children", b.span, b.id, "")
+
+
+def rule_e(ctx):
+    F = ctx.facts
+    if not ctx.has_css:
+        ctx.info("C18-E", "no document style extraction in this configuration (css feature off)")
+        return
+    b = F.one("css::dom_extract::dom_to_stylesheet")
+    bodies_ = [b] + [cb for _bb, _i, cb, _o, _f in closure_bodies_created_in(F, b)]
+    calls = [(x, bb, t) for x in bodies_ for bb, t in x.calls(lambda cd, t: ends(cd, "StyleData::add_author_css"))]
+    ctx.floor("C18-E", "add_author_css calls in dom_to_stylesheet", len(calls), 1)
+    JOINERS = ("join", "concat", "collect", "fold", "push_str", "extend", "add", "add_assign", "format")
+    for x, bb, t in calls:
+        at = x.atoms(t["args"][1])
+        joined = sorted({a[1].split("::")[-1] for a in at if a[0] == "call" and a[1] and a[1].split("::")[-1] in JOINERS})
+        if x is b:
+            per = any(a[0] == "call" and a[1] and a[1].endswith("::next") for a in at)
+        else:
+            # the body of `sheets.iter().for_each(|css| ..)`: the text is the closure's argument
+            per = any(a[0] == "arg" and a[1] >= 2 for a in at)
+        ctx.check(per and not joined, "C18-E", "dom_to_stylesheet:one-parse-per-style-element", t["span"], x.id,
+                  "the text given to add_author_css is %s: parse_stylesheet stops at the first statement it cannot read, so "
+                  "sheets must be parsed one by one for a later <style> element's display:none to survive an earlier "
+                  "sheet's unsupported statement" % ("built by %s" % "/".join(joined) if joined else
+                                                     "not an element yielded by iterating the extracted sheets"))
 
 
 def rule_d(ctx):
